@@ -89,6 +89,8 @@ def ref_loss_from(cfg, lid, res, fs, cols):
         v = sum(sum(x * x for x in r) for r in res)
     elif lid == 3:
         v = sum(sum(x * x for x in r) for r in res) / (len(res) * len(res[0]))
+    elif lid == 4:      # 'l1' / L1Loss: mean absolute residual (not modelled in Coq; oracle only)
+        v = sum(sum(abs(x) for x in r) for r in res) / (len(res) * len(res[0]))
     else:
         raise ValueError(lid)
     if cfg['ext']:
@@ -524,8 +526,8 @@ class Runner:
                 self.solutions.append(klass(self.nets_u[0], self.conds))
                 self.rec['outs'].append(dict(state, op=oi, kind='get_solution', ok=True, cls=klass.__name__))
             elif k in ('eval', 'residuals'):
-                shape = tuple(op['shape'])
-                arrs = [np.array([float(x) for x in c], dtype=np.float64).reshape(shape) for c in op['coords']]
+                shapes = [tuple(s) for s in op.get('shapes', [op['shape']] * len(op['coords']))]
+                arrs = [np.array([float(x) for x in c], dtype=np.float64).reshape(sh) for c, sh in zip(op['coords'], shapes)]
                 if op['as'] == 'tensor':
                     args = [torch.tensor(a) for a in arrs]
                 else:
@@ -721,9 +723,27 @@ def model_opt_for_inexact(sc, rec):
     return counts
 
 
+def sig_bits(x):
+    """number of significant binary digits of a float (0 for 0.0)"""
+    fr = F(x)
+    n = abs(fr.numerator)
+    while n and n % 2 == 0:
+        n //= 2
+    return n.bit_length()
+
+
 def too_big(rec):
+    """True if the run left the range in which float64 arithmetic on the toy values is exact: a magnitude above
+    2^40, or a WEIGHT that needs more than 44 significant bits (weights feed back into every later value; a weight
+    with a full mantissa has been rounded).  Such runs are discarded from the exact comparison and counted."""
     def big(x):
         return x is not None and (not math.isfinite(x) or abs(x) >= BIG)
+    for sn in rec['epochs'] + [rec['final']]:
+        if any(sig_bits(x) > 44 for x in sn['w']) or (sn['best'] and any(sig_bits(x) > 44 for x in sn['best'])):
+            return True
+    for st in rec['steps']:
+        if any(sig_bits(x) > 44 for x in st['w_after']):
+            return True
     for k, v in rec['history'].items():
         if any(big(x) for x in v):
             return True
@@ -791,8 +811,8 @@ def coq_case(sc, rec, exact=True):
             nsol += 1
         elif k in ('eval', 'residuals'):
             o = outs[oi]
-            shape = list(op['shape'])
-            coords = clist([ctensor(shape, c) for c in op['coords']], '(tensor Q)')
+            shapes = [list(s) for s in op.get('shapes', [op['shape']] * len(op['coords']))]
+            coords = clist([ctensor(sh, c) for sh, c in zip(shapes, op['coords'])], '(tensor Q)')
             if k == 'eval':
                 call = f't_call_opt {sol_cfg[op["sol"]]} sol{op["sol"]} {cur} {coords} {cbool(op["no_reshape"])}'
             else:
@@ -929,6 +949,8 @@ def gen_scenario(r, classes=CLASSES, opt_kinds=('sgd', 'script'), n_fits=(1, 4),
     idx = [r.randrange(ntheta) for _ in range(r.randint(0, 3))] if ntheta else []
     npts = r.randint(2, 3) if tie else r.randint(1, 3)
     lid = r.choice(list(lids))
+    if lid == 3:
+        npts = r.randint(1, 2)        # mean over n_points * n_eq entries: keep the divisor a power of two (exact in binary)
     if lid >= 2:
         max_total_epochs = 2 if max_total_epochs is None else min(2, max_total_epochs)
     pool_t = [gen_batch(r, ncoords, npts) for _ in range(r.randint(2, 4))]
@@ -998,6 +1020,9 @@ def gen_eval_op(r, sc, nsol):
     coords = [[r.randint(-3, 3) for _ in range(n)] for _ in range(sc['ncoords'])]
     base = {'shape': shape, 'coords': coords, 'as': r.choice(['tensor', 'ndarray']), 'to_numpy': r.random() < 0.4,
             'no_reshape': r.random() < 0.25}
+    if sc['ncoords'] > 1 and r.random() < 0.35:
+        # same number of points, different shapes: the result must take the shape of the FIRST coordinate
+        base['shapes'] = [shape] + [r.choice([[n], [n, 1], [a, b]]) for _ in range(sc['ncoords'] - 1)]
     if nsol and r.random() < 0.75:
         return dict(base, op='eval', sol=r.randrange(nsol))
     return dict(base, op='residuals', best=r.random() < 0.5)
